@@ -226,6 +226,12 @@ def pre_completion(ctx, tg, task):
     kids = ctx.children.get(s.base, {}).get(s.node, [])
     expect = []
     if node.get("conditional"):
+        if ctx.world["flags"].get("resolve_conditionals_at_submission"):
+            # the branch resolved at submission: the one child whose task carries probability 1 (the others 0)
+            probs = {c.name: c.probability for c in tg.get_children(task)}
+            ones = [k for k, p_ in probs.items() if abs(p_ - 1.0) < 1e-9]
+            if len(ones) == 1 and all(p_ < 1e-9 for k, p_ in probs.items() if k != ones[0]):
+                ctx.submitted_choice[(s.graph, s.node)] = ones[0]
         return {"cond": True, "kids": kids, "s": s}
     for k in kids:
         ks = ctx.by_key.get((s.graph, k))
